@@ -48,3 +48,28 @@ func VC07_DecodeEncodeWellFormed() {
 	vsym.AssertBytesEq(b.Bytes(), in, "Marshal(Unmarshal(x)) = x")
 	vsym.Reach("end")
 }
+
+// VC07_BuiltRoundTrip (converse direction, inductive step): a database satisfying the representation
+// invariant (C09 pre-states) after one library operation (Append with raw or PEM data, or Remove)
+// encodes to a stream that decodes to an equal database (lists of the decodable types).
+func VC07_BuiltRoundTrip() {
+	db, _ := vPreState()
+	t, owner, data, _ := vOpArgs(true)
+	if vsym.Pick("op", 2) == 0 {
+		db.Append(t, owner, data)
+	} else {
+		db.Remove(t, owner, data)
+	}
+	for _, l := range *db {
+		if l.SignatureType != CERT_SHA256_GUID && l.SignatureType != CERT_X509_GUID {
+			return // SHA-1 lists are valid but not decodable by this library
+		}
+	}
+	enc := db.Bytes()
+	back, err := ReadSignatureDatabase(bytes.NewReader(enc))
+	vsym.Assert(err == nil, "a database built by the library encodes to a stream the decoder accepts")
+	vSameFlat(vFlatten(&back), vFlatten(db), "decoding the encoding gives an equal database")
+	vsym.Assert(len(back) == len(*db), "same number of lists")
+	vsym.AssertBytesEq(back.Bytes(), enc, "and re-encodes to the same bytes")
+	vsym.Reach("end")
+}
